@@ -153,6 +153,30 @@ func expectDocs(docs []DocSpec) *Obs {
 			}
 		}
 
+		// geo-shape fields: the encoded shape of the last instance is one more doc value
+		shapes := map[string]string{}
+		visitShape := func(f *FieldSpec) {
+			if f.Kind == KindText && f.Shape != nil {
+				shapes[f.Name] = string(f.Shape)
+			}
+		}
+		for j := range d.Composite {
+			visitShape(&d.Composite[j])
+		}
+		for j := range d.Fields {
+			visitShape(&d.Fields[j])
+		}
+		for fname, sh := range shapes {
+			if dvSet[fname] {
+				dv := o.DV[fname]
+				if dv == nil {
+					dv = map[uint64][]string{}
+					o.DV[fname] = dv
+				}
+				dv[uint64(dn)] = append(dv[uint64(dn)], sh)
+			}
+		}
+
 		// stored: _id first, then by field name order, within a field in input order
 		st := []StoredVal{{Field: "_id", Typ: 't', Val: []byte(d.ID)}}
 		for _, fname := range o.Fields[1:] {
